@@ -394,12 +394,14 @@ pub fn check_case(case: &Case) -> CaseResult {
         }
     }
     // 2-4 on each distinct text with the contents of the range it came from
-    let mut seen: BTreeSet<&str> = BTreeSet::new();
+    let mut seen: BTreeSet<(&str, Vec<((u8, u8), u32)>)> = BTreeSet::new();
     for (i, t) in texts.iter().enumerate() {
-        if !seen.insert(t.as_str()) {
+        let c = contents_of(&built[i]);
+        // the same text for the same contents needs checking once; the same text
+        // for *different* contents (a stale text) must be checked against its own
+        if !seen.insert((t.as_str(), c.iter().map(|(k, v)| (*k, *v)).collect())) {
             continue;
         }
-        let c = contents_of(&built[i]);
         if let Some((k, d)) = check_text(t, &c) {
             res.key = Some((k, format!("history #{i} {}: {d}", recipe_short(&case.histories[i]))));
             break;
@@ -628,6 +630,40 @@ fn gen_case(seed: u64, seeds_on: bool, thorough: bool) -> Case {
     }
     // history 0 is always shipped behaviour: plain collect, seed 0
     hs[0].hash_seed = 0;
+    // decoys: other ranges over the *same combos* with different weights, printed
+    // in between (interleaving of to_string() calls across ranges on one thread):
+    // the text of a range must not depend on what was formatted before it
+    if !c.is_empty() && rng.chance(1, 2) {
+        let nd = rng.range(1, 3);
+        for _ in 0..nd {
+            let mut d = c.clone();
+            match rng.below(3) {
+                0 => {
+                    let w = gen_w(&mut rng);
+                    for v in d.values_mut() {
+                        *v = w;
+                    }
+                }
+                1 => {
+                    let keys: Vec<(u8, u8)> = d.keys().cloned().collect();
+                    let k = *rng.pick(&keys);
+                    let w = d[&k];
+                    d.insert(k, if w == 0.5f32.to_bits() { 0.25f32.to_bits() } else { 0.5f32.to_bits() });
+                }
+                _ => {
+                    // swap two weight classes
+                    let w1 = gen_w(&mut rng);
+                    let w2 = gen_w(&mut rng);
+                    for v in d.values_mut() {
+                        *v = if *v == w1 { w2 } else { w1 };
+                    }
+                }
+            }
+            let h = if rng.chance(1, 4) { gen_parse_history(&mut rng, &d, seeds_on) } else { gen_history(&mut rng, &d, seeds_on) };
+            let at = rng.range(1, hs.len() as u64) as usize;
+            hs.insert(at, h);
+        }
+    }
     Case { histories: hs }
 }
 
@@ -639,7 +675,7 @@ fn minimise(case: &Case, okey: &str) -> (Case, usize) {
             return false;
         }
         *tried += 1;
-        check_case(c).key.map(|(k, _)| k == okey).unwrap_or(false)
+        fresh_thread(|| check_case(c)).key.map(|(k, _)| k == okey).unwrap_or(false)
     };
     // fewest histories
     let mut progress = true;
@@ -762,7 +798,7 @@ pub fn run(tier: &str) -> i32 {
         let results = par_map(n, workers(), move |i| {
             let seed = run_seed(vs, "C17", batch, i as u64);
             let case = gen_case(seed, seeds_on, thorough);
-            let r = check_case(&case);
+            let r = fresh_thread(|| check_case(&case));
             (seed, case, r)
         });
         for (seed, case, r) in results {
@@ -781,6 +817,9 @@ pub fn run(tier: &str) -> i32 {
             ev.probe("content_groups", 1);
             ev.probe("equal_pairs_compared", r.compared_pairs);
             ev.probe("history_pairs_not_equal_so_not_compared", r.unequal_histories);
+            if r.unequal_histories > 0 {
+                ev.fault("interleaved_display_of_other_range_same_combos", 1);
+            }
             if r.orders >= 2 {
                 ev.probe("contents_reached_with_2plus_iteration_orders", 1);
             }
@@ -824,8 +863,8 @@ pub fn run(tier: &str) -> i32 {
             if let Some((okey, _)) = &r.key {
                 if ev.violations.len() < 5 {
                     let (min, tried) = minimise(&case, okey);
-                    let fin = check_case(&min);
-                    let detail = fin.key.map(|x| x.1).unwrap_or_default();
+                    let fin = fresh_thread(|| check_case(&min));
+                    let detail = fin.key.map(|x| x.1).unwrap_or_else(|| r.key.as_ref().unwrap().1.clone());
                     let mut rj = min.to_json();
                     rj["shrink_candidates"] = json!(tried);
                     ev.violations.push(Violation {
